@@ -978,6 +978,56 @@ def jack_operand(draw, shape, kind, n, sigma):
     return {'shape': list(shape), 'kind': kind, 'e': [[rec(), rec()] for _ in range(size)]}
 
 
+def _pre_subs_dims(draw, subs, shape):
+    """dimensions of the letters of `subs` such that the output has `shape`; the other letters are drawn (1..3)"""
+    ins, out = subs.split('->')
+    dim = {x: int(shape[ax]) for ax, x in enumerate(out)}
+    for x in sorted(set(ins.replace(',', ''))):
+        if x not in dim:
+            dim[x] = draw(st.integers(1, 3))
+    return [tuple(dim[x] for x in s) for s in ins.split(',')]
+
+
+PRE_EINSUM = {2: ['ij,jk->ik', 'ij,jk->ik', 'ij,ij->ij', 'ij->ji', 'ij,kj->ik', 'ij,jk,kl->il', 'i,j->ij', 'ij,jk->ki'],
+              1: ['ij,j->i', 'ii->i', 'ij,i->j']}
+
+
+@st.composite
+def jack_pre_stage(draw, pre, shape, k, n, sigma, depth):
+    """Appends to `pre` a jackknife product (jack_matmul or einsum) whose result is an array of `shape` of Obs (k = 'obs') or
+    CObs (k = 'cobs') and returns its index: the result is used as an operand of a later call.  With probability 1/4 one of its
+    own operands is again the result of an earlier call (depth <= 2)."""
+    cplx = k == 'cobs'
+    shape = tuple(int(x) for x in shape)
+    numeric = ['float'] + (['complex'] if cplx else [])
+    if len(shape) == 2 and draw(st.integers(0, 2)) > 0:
+        fn = 'jack_matmul'
+        p = draw(st.sampled_from([2, 2, 3]))
+        dims = [shape[0]] + [draw(st.integers(1, 3)) for _ in range(p - 1)] + [shape[1]]
+        subs = ','.join('abcde'[q] + 'abcde'[q + 1] for q in range(p)) + '->a' + 'abcde'[p]
+        shapes = [(dims[q], dims[q + 1]) for q in range(p)]
+        kinds = [k] + [(k if draw(st.integers(0, 3)) else draw(st.sampled_from(numeric))) for _ in range(p - 1)]
+    else:
+        fn = 'einsum'
+        subs = draw(st.sampled_from(PRE_EINSUM[len(shape)]))
+        shapes = _pre_subs_dims(draw, subs, shape)
+        kinds = [draw(st.sampled_from([k, k, 'obs'] + numeric)) for _ in shapes]
+        if k not in kinds:
+            kinds[draw(st.integers(0, len(kinds) - 1))] = k
+    ops = []
+    nested = depth < 2 and draw(st.integers(0, 3)) == 0
+    cand = [q for q, kk in enumerate(kinds) if kk in ('obs', 'cobs')]
+    pos = draw(st.sampled_from(cand)) if nested else None
+    for q, (s, kk) in enumerate(zip(shapes, kinds)):
+        if q == pos:
+            child = draw(jack_pre_stage(pre, s, kk, n, sigma, depth + 1))
+            ops.append({'shape': list(s), 'kind': 'prev', 'stage': child, 'rk': kk})
+        else:
+            ops.append(draw(jack_operand(s, kk, n, sigma)))
+    pre.append({'fn': fn, 'subs': subs, 'operands': ops, 'fview': [draw(st.sampled_from([False, False, True])) for _ in ops]})
+    return len(pre) - 1
+
+
 @st.composite
 def jack_case(draw, tier, fn):
     nmax = 40 if tier == 'quick' else 300
@@ -1011,53 +1061,97 @@ def jack_case(draw, tier, fn):
         if fn == 'einsum':   # keep letters consistent: shrink every letter
             dim = {x: max(1, dim[x] - 1) for x in dim}
             shapes = [tuple(dim[x] for x in s) for s in ins]
-    ops = [draw(jack_operand(s, k, n, sigma)) for s, k in zip(shapes, kinds)]
-    return {'fn': fn, 'chain': chain, 'subs': subs, 'operands': ops,
+    # chained calls: in half of the cases one or two observable operands are themselves results of an earlier jackknife product
+    pre = []
+    prev_at = []
+    if draw(st.booleans()):
+        cand = [q for q, k in enumerate(kinds) if k in ('obs', 'cobs')]
+        prev_at = sorted(set(draw(st.sampled_from(cand)) for _ in range(draw(st.sampled_from([1, 1, 2])))))
+    ops = []
+    for q, (s, k) in enumerate(zip(shapes, kinds)):
+        if q in prev_at:
+            child = draw(jack_pre_stage(pre, s, k, n, sigma, 1))
+            ops.append({'shape': list(s), 'kind': 'prev', 'stage': child, 'rk': k})
+        else:
+            ops.append(draw(jack_operand(s, k, n, sigma)))
+    spec = {'fn': fn, 'chain': chain, 'subs': subs, 'operands': ops,
             'fview': [draw(st.sampled_from([False, False, True])) for _ in ops]}
+    if pre:
+        spec['pre'] = pre
+    return spec
 
 
-def jack_oracle(spec):
+def _jack_operands(stage, chain, N, results):
+    """Operands of one call: pyerrors arrays and, per operand, what the oracle knows about it
+       mu    central values (for a result of an earlier call: the reference values of that call, i.e. the exact product)
+       vabs  sum of the |terms| behind mu (rounding scale of the values)
+       dl    fluctuations (zero mean) or None for a numeric operand
+       ex    samples minus central value, (deltas + r_value) - value: what export_jackknife turns into jackknife samples
+             value - ex/(N-1).  For primary observables ex = dl; for the result of a jackknife product value != mean of the samples.
+       prev  the operand is the result of an earlier jackknife product"""
     import pyerrors as pe
-    chain = spec['chain']
     name = chain['name']
-    N = len(chain['idl'])
-    pes, means, deltas, dmax = [], [], [], []
-    for op in spec['operands']:
+    out = []
+    fv = stage.get('fview') or [False]
+    for op in stage['operands']:
         shape = tuple(op['shape'])
         if op['kind'] in ('float', 'complex'):
             arr = np.array([to_complex(x) for x in op['e']], dtype=float if op['kind'] == 'float' else complex).reshape(shape)
-            pes.append(arr)
-            means.append(arr)
-            deltas.append(None)
-            dmax.append(np.zeros(shape))
+            out.append({'pe': arr, 'mu': arr, 'vabs': np.abs(arr), 'dl': None, 'ex': None, 'prev': False})
             continue
-        pa = np.empty(shape, dtype=object)
-        mu = np.zeros(shape, dtype=complex if op['kind'] == 'cobs' else float)
-        dl = np.zeros(shape + (N,), dtype=mu.dtype)
-        for q, idx in enumerate(np.ndindex(*shape)):
-            recs = op['e'][q] if op['kind'] == 'cobs' else [op['e'][q]]
-            xs = [recipe_samples(r, N) for r in recs]
-            obs = [pe.Obs([x], [name], idl=[idl_arg(chain)]) for x in xs]
-            pa[idx] = pe.CObs(obs[0], obs[1]) if op['kind'] == 'cobs' else obs[0]
-            x = xs[0] + 1j * xs[1] if op['kind'] == 'cobs' else xs[0]
-            m = np.sum(x) / N
-            mu[idx] = m
-            dl[idx] = x - m
-        fv = spec.get('fview') or [False]
-        if len(shape) >= 2 and fv[len(pes) % len(fv)]:
+        if op['kind'] == 'prev':
+            src = results[op['stage']]
+            src_arr = src['arr']
+            require(src_arr.shape == shape, 'result of the earlier call has shape %r, the generator expected %r' % (src_arr.shape, shape))
+            pa = np.empty(shape, dtype=object)
+            mu = np.array(src['val'])
+            dl = np.zeros(shape + (N,), dtype=mu.dtype)
+            ex = np.zeros(shape + (N,), dtype=mu.dtype)
+            for idx in np.ndindex(*shape):
+                o = src_arr[idx]
+                pa[idx] = o
+                for fac, part in ((1.0, o.real), (1j, o.imag)) if isinstance(o, pe.CObs) else ((1.0, o),):
+                    d = np.asarray(part.deltas[name], dtype=float)
+                    dl[idx] = dl[idx] + fac * d
+                    ex[idx] = ex[idx] + fac * (d + float(part.r_values[name]) - float(part.value))
+            vabs = np.array(src['vabs'])
+        else:
+            pa = np.empty(shape, dtype=object)
+            mu = np.zeros(shape, dtype=complex if op['kind'] == 'cobs' else float)
+            dl = np.zeros(shape + (N,), dtype=mu.dtype)
+            for q, idx in enumerate(np.ndindex(*shape)):
+                recs = op['e'][q] if op['kind'] == 'cobs' else [op['e'][q]]
+                xs = [recipe_samples(r, N) for r in recs]
+                obs = [pe.Obs([x], [name], idl=[idl_arg(chain)]) for x in xs]
+                pa[idx] = pe.CObs(obs[0], obs[1]) if op['kind'] == 'cobs' else obs[0]
+                x = xs[0] + 1j * xs[1] if op['kind'] == 'cobs' else xs[0]
+                m = np.sum(x) / N
+                mu[idx] = m
+                dl[idx] = x - m
+            ex = dl
+            vabs = np.abs(mu)
+        if len(shape) >= 2 and fv[len(out) % len(fv)]:
             # same logical matrix, other memory layout (what a transposed view `A.T` of a C-ordered array is)
             tmp = np.empty(shape[::-1], dtype=object)
             for idx in np.ndindex(*shape):
                 tmp[idx[::-1]] = pa[idx]
             pa = tmp.T
-        pes.append(pa)
-        means.append(mu)
-        deltas.append(dl)
-        dmax.append(np.max(np.abs(dl), axis=-1))
-    subs = spec['subs']
-    fn = spec['fn']
-    what = '%s(%s)' % (fn, subs) if fn == 'einsum' else 'jack_matmul of %d factors' % len(pes)
-    primed = int(spec_hash(spec), 16) % 3 == 0
+        out.append({'pe': pa, 'mu': mu, 'vabs': vabs, 'dl': dl, 'ex': ex, 'prev': op['kind'] == 'prev'})
+    return out
+
+
+def _jack_stage(stage, chain, N, results, what, primed):
+    """Runs one jackknife product and judges it; returns {'arr', 'val', 'vabs', 'cplx'} for use as an operand of a later call."""
+    import pyerrors as pe
+    name = chain['name']
+    info = _jack_operands(stage, chain, N, results)
+    pes = [x['pe'] for x in info]
+    means = [x['mu'] for x in info]
+    deltas = [x['dl'] for x in info]
+    dmax = [np.zeros(x['mu'].shape) if x['ex'] is None else np.max(np.abs(x['ex']), axis=-1) for x in info]
+    chained = any(x['prev'] for x in info)
+    subs = stage['subs']
+    fn = stage['fn']
     if primed:
         # state between calls: the same array objects held other observables in a call just before (entries are assigned in
         # place, as a user filling a matrix in a loop does); the result must be that of the entries the arrays hold now
@@ -1077,13 +1171,13 @@ def jack_oracle(spec):
         res = pe.linalg.jack_matmul(*pes)
     else:
         res = pe.linalg.einsum(subs, *pes)
-    # independent jackknife: sample 0 = means, sample i = (N mean - x_i)/(N-1) = mean - delta_i/(N-1)
+    # independent jackknife: sample 0 = central values, sample i = value - (x_i - value)/(N-1)  [= (N mean - x_i)/(N-1) for primaries]
     jops = []
-    for mu, dl in zip(means, deltas):
-        if dl is None:
-            jops.append(mu[..., None])
+    for x in info:
+        if x['dl'] is None:
+            jops.append(x['mu'][..., None])
         else:
-            jops.append(np.concatenate([mu[..., None], mu[..., None] - dl / (N - 1)], axis=-1))
+            jops.append(np.concatenate([x['mu'][..., None], x['mu'][..., None] - x['ex'] / (N - 1)], axis=-1))
     R = multilin(subs, jops)
     oshape = R.shape[:-1]
     cplx = np.iscomplexobj(R)
@@ -1104,6 +1198,8 @@ def jack_oracle(spec):
         for S in itertools.combinations(obs_idx, size):
             t = multilin(subs, [(dmax[q] if q in S else np.abs(means[q]))[..., None] for q in range(len(means))])[..., 0]
             bound = bound + 2.0 * np.real(t) * float(N - 1) ** (1 - size)
+    # rounding scale of the value: sum of the |terms| of the multilinear form (through all earlier calls)
+    vabs = np.real(multilin(subs, [x['vabs'][..., None].astype(float) for x in info])[..., 0])
     scale = float(np.max(np.abs(R))) + 1e-300
     for idx in np.ndindex(*oshape) if oshape else [()]:
         o = res_arr[idx]
@@ -1120,28 +1216,68 @@ def jack_oracle(spec):
             require([int(c) for c in ob.idl[name]] == list(chain['idl']), w + lab + ': configuration list differs from that of the operands')
             r = sel(R[idx])
             val = float(r[0])
-            require(abs(float(ob.value) - val) <= 1e-12 * max(abs(val), scale), w + lab + ': value %r differs from the exact product %r' % (float(ob.value), val))
-            want = -(N - 1) * (r[1:] - np.sum(r[1:]) / N)
+            vtol = 1e-12 * max(abs(val), scale, float(vabs[idx]))
+            require(abs(float(ob.value) - val) <= vtol, w + lab + ': value %r differs from the exact product %r of the central values%s'
+                    % (float(ob.value), val, ' (operands that are results of an earlier jackknife product enter with their value)' if chained else ''))
             got = np.asarray(ob.deltas[name], dtype=float)
-            require(got.shape == want.shape, w + lab + ': number of fluctuations', got.shape, want.shape)
-            dev = np.abs(got - want)
-            tol = 1e-9 * np.maximum(np.abs(got), np.abs(want)) + 1e-12 * N * scale
-            bad = np.where(~(dev <= tol))[0]
-            require(len(bad) == 0, w + lab + ': fluctuation at configuration %s is %r, independent jackknife computation gives %r (%d of %d differ)'
-                    % (chain['idl'][int(bad[0])] if len(bad) else '', float(got[bad[0]]) if len(bad) else 0, float(want[bad[0]]) if len(bad) else 0, len(bad), N))
+            require(got.shape == (N,), w + lab + ': number of fluctuations', got.shape, (N,))
+            if not chained:
+                want = -(N - 1) * (r[1:] - np.sum(r[1:]) / N)
+                dev = np.abs(got - want)
+                tol = 1e-9 * np.maximum(np.abs(got), np.abs(want)) + 1e-12 * N * scale
+                bad = np.where(~(dev <= tol))[0]
+                require(len(bad) == 0, w + lab + ': fluctuation at configuration %s is %r, independent jackknife computation gives %r (%d of %d differ)'
+                        % (chain['idl'][int(bad[0])] if len(bad) else '', float(got[bad[0]]) if len(bad) else 0, float(want[bad[0]]) if len(bad) else 0, len(bad), N))
             ex = sel(exact[idx])
             dev = np.abs(got - ex)
-            bnd = bound[idx] + 1e-12 * N * scale
+            bnd = bound[idx] + 1e-12 * N * max(scale, float(vabs[idx]))
             bad = np.where(~(dev <= bnd))[0]
             require(len(bad) == 0, w + lab + ': fluctuation at configuration %s deviates from the exact first-order product by %.3g, second-order bound %.3g'
                     % (chain['idl'][int(bad[0])] if len(bad) else '', float(dev[bad[0]]) if len(bad) else 0, float(bnd)))
+    return {'arr': res_arr, 'val': R[..., 0], 'vabs': vabs, 'cplx': cplx, 'n': len(pes)}
+
+
+def _stage_depth(stages, k):
+    return 1 + max([_stage_depth(stages, op['stage']) for op in stages[k]['operands'] if op['kind'] == 'prev'] + [0])
+
+
+def jack_oracle(spec):
+    chain = spec['chain']
+    N = len(chain['idl'])
+    fn = spec['fn']
+    subs = spec['subs']
+    pre = spec.get('pre') or []
+    primed = int(spec_hash(spec), 16) % 3 == 0
+    results = []
+    for k, stage in enumerate(pre):
+        w = 'earlier call %d/%d: %s' % (k + 1, len(pre), '%s(%s)' % (stage['fn'], stage['subs']))
+        results.append(_jack_stage(stage, chain, N, results, w, False))
+    nprev = sum(op['kind'] == 'prev' for op in spec['operands'])
+    what = '%s(%s)' % (fn, subs) if fn == 'einsum' else 'jack_matmul of %d factors' % len(spec['operands'])
+    if nprev:
+        what += ' with %d operand%s from an earlier jackknife product' % (nprev, '' if nprev == 1 else 's')
+    final = _jack_stage(spec, chain, N, results, what, primed)
+    cplx = final['cplx']
     labs = {'fn:' + fn, 'idl:' + gen.classify_idl(chain['idl']), 'kind:' + ('complex' if cplx else 'real'),
-            'operands:%d' % len(pes)}
+            'operands:%d' % final['n']}
     if fn == 'einsum':
         labs.add('subs:' + subs)
     if any(op['kind'] in ('float', 'complex') for op in spec['operands']):
         labs.add('numeric_operand')
-    nt = cplx or len(pes) >= 3 or gen.classify_idl(chain['idl']) != 'contig'
+    if pre:
+        stages = pre + [spec]
+        labs.add('chained:depth%d' % (_stage_depth(stages, len(stages) - 1) - 1))
+        labs.add('chained:prev_operands:%d' % nprev)
+        labs.add('chained:earlier_calls:%d' % len(pre))
+        for q, op in enumerate(spec['operands']):
+            if op['kind'] == 'prev':
+                labs.add('chained:prev_position:' + ('first' if q == 0 else 'later'))
+                labs.add('chained:prev_from:' + pre[op['stage']]['fn'])
+        if len(spec['operands']) >= 3:
+            labs.add('chained:3-4_factors')
+    else:
+        labs.add('chained:no')
+    nt = cplx or final['n'] >= 3 or gen.classify_idl(chain['idl']) != 'contig' or bool(pre)
     return {'nt': bool(nt), 'cls': sorted(labs)}
 
 
